@@ -161,6 +161,8 @@ def _key(x: Any) -> Any:
         return tuple(sorted(map(_key, x.items)))
     if hasattr(x, "id"):
         return ("scc", x.id)
+    if hasattr(x, "code") and hasattr(x, "default_enabled"):
+        return ("errorcode", x.code)
     return ("v", x)
 
 
@@ -538,6 +540,78 @@ def s1_best_matches(rep: Report) -> None:
         rep.candidate(key, f"best_matches({cur!r}, {pool}) = {got} vs canonical {canon}", {"misspelt": cur}, replay)
 
 
+def s2_options_snapshot(rep: Report) -> None:
+    """Options.select_options_affecting_cache (the value list that build.options_snapshot hashes into
+    every cache record and find_cache_meta compares on warm runs) with every set-valued keyed option as
+    an NDSet: the value list must be the same for every iteration rank assignment, otherwise cache
+    records and freshness decisions depend on the hash seed."""
+    import mypy.options as O
+    from mypy import errorcodes
+
+    K = Kernel("mypy.options", ["Options.select_options_affecting_cache"], closure=False)
+    rep.kernels_from(K)
+    fn = K["Options.select_options_affecting_cache"]
+    base = O.Options()
+    set_attrs = sorted(a for a in O.OPTIONS_AFFECTING_CACHE if isinstance(getattr(base, a, None), (set, frozenset)))
+    pool_codes = [errorcodes.TRUTHY_BOOL, errorcodes.REDUNDANT_EXPR, errorcodes.ARG_TYPE, errorcodes.MISC]
+    ctx = Ctx(max_paths=200000)
+    found: dict = {}
+    n = {"p": 0}
+
+    def mk() -> Any:
+        o = O.Options()
+        return o
+
+    def body(c: Ctx) -> None:
+        a = set_attrs[c.choose("attribute", len(set_attrs))]
+        k = 2 + c.choose("size", 2)
+        members = pool_codes[:k] if a.endswith("error_codes") else ["alpha", "beta", "gamma"][:k]
+        _MODE["ranks"] = {}
+        _MODE["ctx"] = None
+        o = mk()
+        setattr(o, a, NDSet(members))
+        canon = repr(fn(o))
+        _MODE["ctx"] = c
+        try:
+            got = repr(fn(o))
+        finally:
+            _MODE["ctx"] = None
+        n["p"] += 1
+        c.stats["assert_queries"] += 1
+        if got == canon:
+            c.stats["discharged"] += 1
+        else:
+            c.stats["refuted"] += 1
+            found.setdefault(f"the option snapshot written to cache records depends on the iteration order of the set option {a}", (a, k))
+
+    ctx.explore(body)
+    rep.add_ctx("S2 select_options_affecting_cache under nondeterministic set iteration", ctx, set_valued_keyed_options=set_attrs, runs=n["p"])
+    rep.twin("S2: a keyed set-valued option exists and was permuted", n["p"] > 0 and len(set_attrs) > 0)
+    rep.bounds.append(f"S2: each set-valued option in OPTIONS_AFFECTING_CACHE ({', '.join(set_attrs)}) holding 2 or 3 members, every iteration rank assignment")
+    for key, (a, k) in found.items():
+        rep.sample({"kernel": "select_options_affecting_cache", "class": key, "attribute": a, "members": k})
+
+        def replay(d: str, a: str = a, k: int = k) -> tuple[bool, str]:
+            names = ["truthy-bool", "redundant-expr", "arg-type", "misc"][:k]
+            script = (
+                "import mypy.build\nfrom mypy.options import Options\nfrom mypy import errorcodes\n"
+                f"o = Options()\nsetattr(o, {a!r}, {{errorcodes.error_codes[x] for x in {names!r}}} if {a!r}.endswith('error_codes') else set({names!r}))\n"
+                "print(o.select_options_affecting_cache())\n"
+            )
+            with open(os.path.join(d, "replay.py"), "w") as f:
+                f.write(script)
+            env = dict(os.environ)
+            env.pop("PYTHONPATH", None)
+            outs = set()
+            for seed in range(48):
+                env["PYTHONHASHSEED"] = str(seed)
+                p = subprocess.run([sys.executable, os.path.join(d, "replay.py")], capture_output=True, text=True, env=env, timeout=120)
+                outs.add(p.stdout.strip() or p.stderr[-200:])
+            return len(outs) > 1, f"{len(outs)} distinct option snapshots over 48 hash seeds"
+
+        rep.candidate(key, f"{a} with {k} members", {"attribute": a, "members": k}, replay)
+
+
 # --- H2: recursion guards shared by all modules of a build are left as they were found
 def h2_guard_stacks(rep: Report) -> None:
     """constraints.infer_constraints (the real function) on types from a real build: a generic protocol
@@ -660,6 +734,7 @@ def main(args: Any) -> int:
             found.setdefault(k, v)
     h1_history(rep)
     s1_best_matches(rep)
+    s2_options_snapshot(rep)
     h2_guard_stacks(rep)
     rep.bounds.append("S1: four candidate pools with case-only variants and equal-ratio ties, every iteration rank assignment; H2: two generic protocol templates x five actual types (NamedTuple, tuple, nominal implementer, generic implementer, non-implementer) x both directions")
     rep.bounds.append("H1: two builds in one process, typeshed VERSIONS table (3 choices) and target version (3 choices) solver-chosen per build; only the known-modules memo and the resets at the top of build.build")
